@@ -4,11 +4,15 @@ the property oracle, prints `<id> <verdict>` per line.  Pure function of its inp
 -/
 import DastardV.Proto
 import DastardV.Model.C12
+import DastardV.Model.C14
+import DastardV.Model.C18
 open DastardV
 
 def dispatch (prop : String) (rest : List String) : Verdict :=
   match prop with
   | "C12" => C12.runLine rest
+  | "C14" => C14.runLine rest
+  | "C18" => C18.runLine rest
   | _ => .bad s!"unknown property {prop}"
 
 partial def loop (h : IO.FS.Stream) (out : IO.FS.Stream) : IO Unit := do
